@@ -19,6 +19,8 @@ def run(P, R, L):
     K.pair8_reversal(P, R, L)
     R.clause("GRD-3", "the collapse to user-visible entries hides entries newer than the iterator's sequence on every yielding path")
     K.grd3_sequence_filter(P, R, L)
+    R.clause("SRC-1", "the client iterator merges every source: mutable memtable, immutable memtable (when present), one iterator per level-0 file and per non-empty deeper level")
+    K.src1_iterator_sources(P, R, L)
     R.not_decided += ["which element a data-dependent loop stops on (the equivalence with a sorted-map cursor)",
                       "re-positioning of non-current children on direction change", "tombstone / shadowing logic beyond the sequence filter"]
     R.assumptions += ["the helpers named in the direction table do what their names say (their bodies are value-level)"]
